@@ -244,23 +244,22 @@ private theorem update_nil (c : CacheMap) (h : (c.map Prod.fst).Nodup) :
     · simp
     · simpa [List.append_assoc] using hnd
 
-/-- **C15_save_load_roundtrip** — `save_cache` followed by a restart (`FileSet(info_cache=file)`), on any disk:
-given the JSON contract `decode (encode j) = j` and that `json.dump`'s chunks spell `encode doc`, the restarted
-FileSet holds exactly the saved cache — same paths, same order, times to the microsecond from datetime.min to
-datetime.max, same attributes — and no warning is issued. -/
-theorem C15_save_load_roundtrip (decode : Bytes → Option J) (encode : J → Bytes)
-    (hrt : ∀ j, decode (encode j) = some j)
+/-- **C15_save_load_roundtrip** — `save_cache` followed by a restart (`FileSet(info_cache=file)`), on any disk.
+The JSON layer enters only through *this* document: `text` is what `json.dump` wrote for `cacheDoc c` (the chunks
+spell it) and `json.load` reads that text back as the same document (`hrt`; no claim about other JSON values).
+Then the restarted FileSet holds exactly the saved cache — same paths, same order, times to the microsecond from
+datetime.min to datetime.max, same attributes — and no warning is issued. -/
+theorem C15_save_load_roundtrip (decode : Bytes → Option J) (text : Bytes)
     (d : Disk) (file : String) (c : CacheMap) (hc : WFCache c) (chunks : List Bytes) (flushes : List Nat)
-    (hch : chunks.flatten = encode (cacheDoc c)) :
+    (hch : chunks.flatten = text) (hrt : decode text = some (cacheDoc c)) :
     init decode (run d (saveEvents file chunks flushes)) file = ⟨c, false⟩ := by
   simp only [init, load, (run_full d file chunks flushes).1, hch, hrt, docToMap_cacheDoc c hc]
   rw [update_nil c hc.1]
 
 /-- the same with a non-empty cache at load time: `load_cache` is a dictionary update -/
-theorem C15_save_load_update (decode : Bytes → Option J) (encode : J → Bytes)
-    (hrt : ∀ j, decode (encode j) = some j)
+theorem C15_save_load_update (decode : Bytes → Option J) (text : Bytes)
     (d : Disk) (file : String) (c c0 : CacheMap) (hc : WFCache c) (chunks : List Bytes) (flushes : List Nat)
-    (hch : chunks.flatten = encode (cacheDoc c)) :
+    (hch : chunks.flatten = text) (hrt : decode text = some (cacheDoc c)) :
     load decode (run d (saveEvents file chunks flushes)) file c0 = ⟨c0.update c, false⟩ := by
   simp only [load, (run_full d file chunks flushes).1, hch, hrt, docToMap_cacheDoc c hc]
 
@@ -360,14 +359,15 @@ theorem C15_null_time_rejected (decode : Bytes → Option J) (d : Disk) (file : 
     · rfl
   simp [docToMap, hes, mapM_none_of_mem fromJsonDict es _ he hnone]
 
-/-- **C15_truncated_warns** — with the JSON contract "no strict prefix of an encoding decodes", a cache file cut
-at any byte produces the warning and leaves the cache unchanged. -/
-theorem C15_truncated_warns (decode : Bytes → Option J) (encode : J → Bytes)
-    (hpre : ∀ j n, n < (encode j).length → decode ((encode j).take n) = none)
-    (d : Disk) (file : String) (c : CacheMap) (j : J) (n : Nat) (hn : n < (encode j).length)
-    (hf : d.files file = some (.file ((encode j).take n))) :
+/-- **C15_truncated_warns** — let `text` be the saved text of one document and assume that `json.load` rejects
+every strict prefix of *this* text (true for the text of a JSON list, which ends with its only top-level `]`).
+Then a cache file cut at any byte produces the warning and leaves the cache unchanged. -/
+theorem C15_truncated_warns (decode : Bytes → Option J) (text : Bytes)
+    (hpre : ∀ n, n < text.length → decode (text.take n) = none)
+    (d : Disk) (file : String) (c : CacheMap) (n : Nat) (hn : n < text.length)
+    (hf : d.files file = some (.file (text.take n))) :
     (load decode d file c).warned = true ∧ (load decode d file c).cache = c :=
-  (C15_load_total decode d file c).2.1 (Or.inr ⟨_, hf, Or.inl (hpre j n hn)⟩)
+  (C15_load_total decode d file c).2.1 (Or.inr ⟨_, hf, Or.inl (hpre n hn)⟩)
 
 /-! ## look-ups with a pre-filled cache -/
 
@@ -439,6 +439,23 @@ example : Consistent (fun k => if k = exInfo.path then some exInfo else none) [(
   split at h
   · rename_i hk; simp only [Option.some.injEq] at h; simp [← hk, h]
   · simp at h
+
+/-- a codec satisfying the JSON hypotheses for the concrete cache above: the text `[1, 2, 3]` decodes to its
+document, nothing else decodes (in particular no strict prefix) -/
+private def exText : Bytes := [1, 2, 3]
+private def exDecode (b : Bytes) : Option J := if b = exText then some (cacheDoc [(exInfo.path, exInfo)]) else none
+
+example : exDecode exText = some (cacheDoc [(exInfo.path, exInfo)]) := by simp [exDecode]
+
+example : ∀ n, n < exText.length → exDecode (exText.take n) = none := by
+  intro n hn
+  have : n = 0 ∨ n = 1 ∨ n = 2 := by simp [exText] at hn; omega
+  rcases this with rfl | rfl | rfl <;> simp [exDecode, exText]
+
+/-- the round-trip theorem instantiated with that codec (hypotheses are jointly satisfiable) -/
+example (d : Disk) (hwf : WFCache [(exInfo.path, exInfo)]) :
+    init exDecode (run d (saveEvents "c.json" [[1], [2, 3]] [1])) "c.json" = ⟨[(exInfo.path, exInfo)], false⟩ :=
+  C15_save_load_roundtrip exDecode exText d "c.json" _ hwf [[1], [2, 3]] [1] (by simp [exText]) (by simp [exDecode])
 
 -- executable sanity tests of the model (a crash in the middle keeps the old file; the full run replaces it)
 private def d0 : Disk := { files := (FS.empty.set "c" (.file [1, 2, 3])), bufs := FS.empty }
